@@ -377,7 +377,8 @@ def body(a0, d0, ar, dr, t):
 def check_rts(case):
     lon_w, lat, a0, d0, (ar, dr), h0 = case["lon_w"], case["lat"], case["a0"], case["d0"], case["motion"], case["h0"]
     A = [body(a0, d0, ar, dr, t) for t in (-1, 0, 1)]
-    args = [Angle(lon_w), Angle(lat)] + [Angle(v) for p in A for v in p] + [Angle(h0), DT, Angle(THETA0)]
+    theta0 = case.get("theta0", THETA0)
+    args = [Angle(lon_w), Angle(lat)] + [Angle(v) for p in A for v in p] + [Angle(h0), DT, Angle(theta0)]
     before = [x._deg for x in args if isinstance(x, Angle)]
     try:
         r = times_rise_transit_set(*args)
@@ -406,7 +407,7 @@ def check_rts(case):
         m = ut_h / 24.0
         n = m + DT / 86400.0
         a, d = body(a0, d0, ar, dr, n)
-        th = THETA0 + 360.985647 * m
+        th = theta0 + 360.985647 * m
         H = th - lon_w - a
         az, el = equatorial2horizontal(Angle(H), Angle(d), Angle(lat))
         return el._deg, wrap180(H)
@@ -453,6 +454,14 @@ def rts_seam_cases():
                                 out.append({"lon_w": lw, "lat": la, "a0": a0, "d0": d0, "motion": list(mo), "h0": h0,
                                             "seam": ev, "eps": eps})
     return out
+
+
+def rts_zero_hour_cases():
+    """Bodies whose right ascension passes 0h = 24h during the three days (prograde and retrograde, slow and fast),
+    seen from eastern and western longitudes at four sidereal times: the hour-angle reductions by +-360 degrees."""
+    return [{"lon_w": lw, "lat": la, "a0": a0, "d0": 1.07, "motion": list(mo), "h0": -0.5667, "theta0": th, "seam": "0h"}
+            for lw in (-116.4, 71.0833, 0.0) for la in (39.9, -42.3333) for a0 in (0.15, 0.05, 359.95, 359.85)
+            for mo in ((-0.3, -0.13), (-1.5, -1.0), (0.3, 0.1), (1.05, 0.39)) for th in (300.0, 177.74208, 90.0, 0.5)]
 
 
 def run_rts(block, ctx):
@@ -517,7 +526,7 @@ def clauses(tier):
                lambda c: [m for _, m, _ in check_riseset(c)], floor=100),
         Clause("rise_transit_set", chunks(rts_cases(), 32), run_rts,
                lambda c: [m for _, m, _ in check_rts(c)], floor=200),
-        Clause("rts_day_seam", chunks(rts_seam_cases(), 16), run_rts,
+        Clause("rts_day_seam", chunks(rts_seam_cases() + rts_zero_hour_cases(), 16), run_rts,
                lambda c: [m for _, m, _ in check_rts(c)], floor=200),
         Clause("rts_threshold", chunks(threshold_cases(tier), 32), run_threshold,
                lambda c: [m for _, m, _ in check_rts(c)], floor=200),
